@@ -92,6 +92,7 @@ pub struct Style {
     pub newline_literal: bool,
     pub swap_greed_groups: bool,
     pub class_h: bool,
+    pub lit_escapes: bool,
 }
 impl Default for Style {
     fn default() -> Self {
@@ -106,6 +107,7 @@ impl Default for Style {
             newline_literal: false,
             swap_greed_groups: false,
             class_h: false,
+            lit_escapes: false,
         }
     }
 }
@@ -134,6 +136,20 @@ impl<'s> Printer<'s> {
             LitStyle::U4 if cp < 0x10000 => return self.t(&format!("\\u{:04X}", cp)),
             LitStyle::U8 => return self.t(&format!("\\U{:08x}", cp)),
             _ => {}
+        }
+        if self.style.lit_escapes {
+            let e = match c {
+                '\x07' => "\\a",
+                '\x0c' => "\\f",
+                '\t' => "\\t",
+                '\r' => "\\r",
+                '\x0b' => "\\v",
+                '\x1b' => "\\e",
+                _ => "",
+            };
+            if !e.is_empty() {
+                return self.t(e);
+            }
         }
         if c == '\n' {
             if self.style.newline_literal {
